@@ -48,8 +48,30 @@ def gen_case(rng, cid, max_len=3, max_depth=2, allow=None, short_prob=0.0,
     raise RuntimeError('generator could not produce a case')
 
 
+def prefit_history(kp, case):
+    """History before the fit under test: the same pipeline object is first fitted on data of the same width
+    with another layout (other number of inputs, or the episode column read as a state).  Deterministic in
+    the case id; estimators that reject the other layout are left unfitted."""
+    cid = int(case.get('cid', 0))
+    if cid % 4 != 3:
+        return False
+    X = case.get('Xfit', case['X'])
+    try:
+        if cid % 8 == 3:
+            alt = case['nu'] - 1 if case['nu'] > 0 else 1
+            if case['ns'] + case['nu'] - alt < 1:
+                return False
+            kp.fit_transformers(X, n_inputs=alt, episode_feature=case['ep'])
+        else:
+            kp.fit_transformers(X, n_inputs=case['nu'], episode_feature=not case['ep'])
+        return True
+    except Exception:  # noqa
+        return False
+
+
 def fit_case(case):
     kp = sg.build_top(case['chain'])
+    case['prefit'] = prefit_history(kp, case)
     kp.fit_transformers(case.get('Xfit', case['X']), n_inputs=case['nu'], episode_feature=case['ep'])
     return kp
 
